@@ -68,6 +68,11 @@ func Drive(args []string) int {
 	if *replay != "" {
 		return driveReplay(p, self, *raceBin, *replay, *runDir)
 	}
+	if old, _ := filepath.Glob(filepath.Join(*verifDir, "replay", p.ID+"-*.json")); len(old) > 0 {
+		for _, f := range old {
+			os.Remove(f)
+		}
+	}
 	n := p.Batches(*tier)
 	type job struct {
 		batch int
